@@ -348,6 +348,35 @@ func (g *Gen) genC04() {
 		}
 		g.add(safetyCase("C04", line, calls, nil, kind))
 	}
+	// first lines with runs of blanks where one SP is expected (after the version of a reply, between the tokens of a
+	// request), cut after every byte: the look-ahead of the status-code test must stay inside the buffer
+	for _, head := range []string{"SIP/2.0", "sip/2.0", "INVITE", "SIP/2.0 200", "INVITE sip:a@b"} {
+		for k := 0; k <= 9; k++ {
+			for _, bl := range []string{" ", "\t", " \t"} {
+				blanks := strings.Repeat(bl, k)[:k]
+				for _, tail := range []string{"", "2", "20", "200", "200 ", "200 OK\r\n\r\n", "\r\n", "\r\n\r\n", "sip:a@b SIP/2.0\r\n\r\n", "OK\r\n"} {
+					text := head + blanks + tail
+					if len(text) == 0 {
+						continue
+					}
+					cuts := []int{len(text)}
+					if k%3 == 0 && tail == "" {
+						cuts = allCuts(len(text))
+					}
+					var calls []pcall
+					for j, c := range cuts {
+						st := -1
+						if j == 0 {
+							st = 0
+						}
+						calls = append(calls, pcall{c, st})
+					}
+					g.add(safetyCase("C04", parseSess("msg - -", text, 0, cuts, r.N(8), true, ""), calls, nil, "fline-blank-runs"))
+					g.add(safetyCase("C04", parseSess("fline", text, 0, cuts, 0, true, ""), calls, nil, "fline-blank-runs"))
+				}
+			}
+		}
+	}
 	// reuse after Reset/Init (abandoned or failed parses before): must not panic either
 	hN := g.budget(1500, 50000)
 	for i := 0; i < hN; i++ {
